@@ -16,6 +16,7 @@ import (
 	orderPeerMgr "github.com/meshplus/bitxhub-core/peer-mgr"
 	"github.com/meshplus/bitxhub-model/pb"
 	"github.com/meshplus/bitxhub/pkg/order/etcdraft"
+	raftproto "github.com/meshplus/bitxhub/pkg/order/etcdraft/proto"
 	"pgregory.net/rapid"
 
 	"verifharness/sim"
@@ -34,6 +35,8 @@ type raftNet struct {
 	healed                       bool
 	dropped, duplicated, delayed int
 	isolated                     map[uint64]bool // replicas cut off from the others (nothing in, nothing out)
+	holdTxUntil                  time.Time       // transaction broadcasts sent before this instant arrive at it (slow gossip)
+	heldTx                       int
 	partitions                   int
 }
 
@@ -105,10 +108,34 @@ func (p *raftPeerMgr) deliver(to uint64, m *pb.Message) error {
 	return nil
 }
 
+// isTxBroadcast reports whether a consensus message carries broadcast transactions.
+func isTxBroadcast(m *pb.Message) bool {
+	rm := &raftproto.RaftMessage{}
+	if err := rm.Unmarshal(m.Data); err != nil {
+		return false
+	}
+	return rm.Type == raftproto.RaftMessage_BROADCAST_TX
+}
+
 func (p *raftPeerMgr) AsyncSend(to orderPeerMgr.KeyType, m *pb.Message) error {
 	id := to.(uint64)
 	if p.net.cut(p.self, id) {
 		return nil // partitioned
+	}
+	p.net.mu.Lock()
+	hold := time.Until(p.net.holdTxUntil)
+	p.net.mu.Unlock()
+	if hold > 0 && isTxBroadcast(m) {
+		// the gossip of transactions is slower than the consensus traffic: the broadcast arrives after the
+		// transactions were ordered, possibly after a leader change
+		p.net.mu.Lock()
+		p.net.heldTx++
+		p.net.mu.Unlock()
+		go func() {
+			time.Sleep(hold)
+			_ = p.deliver(id, m)
+		}()
+		return nil
 	}
 	act := p.action()
 	switch act {
@@ -241,6 +268,9 @@ func (r *raftReplica) start(t *rapid.T, vp map[uint64]*pb.VpInfo) {
 				if ev == nil {
 					continue
 				}
+				if os.Getenv("VERIF_LOG") != "" {
+					fmt.Fprintf(os.Stderr, "HARNESS %s incarnation %d got block %d @%dms\n", stub.name, r.started, ev.Block.BlockHeader.Number, time.Since(processStart).Milliseconds())
+				}
 				r.net.mu.Lock()
 				if h := ev.Block.BlockHeader.Number; h > r.delivered {
 					r.delivered = h
@@ -316,7 +346,7 @@ func c20RaftProperty(t *rapid.T) {
 		mustMkdir(dir)
 		writeOrderToml(dir, batchSize, "0.03s", false, "2s", snap, "0.02s")
 		r := &raftReplica{id: uint64(i), dir: dir, stub: newExecStub(fmt.Sprintf("replica%d", i), 1), net: net}
-		r.lag = time.Duration(rapid.SampledFrom([]int{0, 0, 15, 40}).Draw(t, fmt.Sprintf("lag%d", i))) * time.Millisecond
+		r.lag = time.Duration(rapid.SampledFrom([]int{0, 0, 15, 40, 150}).Draw(t, fmt.Sprintf("lag%d", i))) * time.Millisecond
 		if noCrash && size == 3 {
 			// slow executors: blocks delivered from a replica's own log are still queued when a snapshot arrives
 			r.lag = time.Duration(rapid.SampledFrom([]int{15, 40, 80, 150}).Draw(t, fmt.Sprintf("slowLag%d", i))) * time.Millisecond
@@ -346,7 +376,7 @@ func c20RaftProperty(t *rapid.T) {
 	}
 	keys := []*sim.Key{sim.KeyFor("ord-a"), sim.KeyFor("ord-b")}
 	next := map[int]uint64{}
-	restarts, leaderCrashes, deepPartitions := 0, 0, 0
+	restarts, leaderCrashes, deepPartitions, catchUpCrashes := 0, 0, 0, 0
 	tsSeq := int64(0)
 	tsMode := rapid.IntRange(0, 2).Draw(t, "tsMode") // 0 increasing with the nonce, 1 decreasing, 2 arbitrary
 	skippedAfterRestart := 0
@@ -359,6 +389,7 @@ func c20RaftProperty(t *rapid.T) {
 			inconclusive = "no leader within 15s"
 			break
 		}
+		via := entry
 		submit := func(cnt int) {
 			for i := 0; i < cnt; i++ {
 				a := rapid.IntRange(0, 1).Draw(t, "acct")
@@ -373,7 +404,7 @@ func c20RaftProperty(t *rapid.T) {
 				}
 				tx := orderTxTS(keys[a], next[a], 0, ts)
 				done := make(chan error, 1)
-				n := entry.node
+				n := via.node
 				go func() { done <- n.Prepare(tx) }()
 				select {
 				case err := <-done:
@@ -429,14 +460,23 @@ func c20RaftProperty(t *rapid.T) {
 				cnt += k
 			}
 		}
+		// leader-crash episode: the replica that accepted (and proposed) the transactions goes down shortly afterwards,
+		// while its entries may be appended on the others but not committed yet
+		leaderCrash := !noCrash && size == 3 && (rapid.IntRange(0, 3).Draw(t, "leaderCrash") == 0 || forceLC)
+		if leaderCrash && rapid.Bool().Draw(t, "slowGossip") {
+			// ... and the gossip of these transactions is slow: the others see them in a log entry first and get the
+			// broadcast after the leader change
+			d := time.Duration(rapid.IntRange(150, 500).Draw(t, "gossipDelayMs")) * time.Millisecond
+			net.mu.Lock()
+			net.holdTxUntil = time.Now().Add(d)
+			net.mu.Unlock()
+			ops = append(ops, fmt.Sprintf("round %d: transaction broadcasts held back for %v", rd, d))
+		}
 		if cnt == 0 {
 			cnt = rapid.IntRange(1, 5).Draw(t, "txs")
 			submit(cnt)
 		}
 		ops = append(ops, fmt.Sprintf("round %d: %d transactions via replica %d (next nonces %v) @%dms", rd, cnt, entry.id, next, time.Since(processStart).Milliseconds()))
-		// leader-crash episode: the replica that accepted (and proposed) the transactions goes down shortly afterwards,
-		// while its entries may be appended on the others but not committed yet
-		leaderCrash := !noCrash && size == 3 && (rapid.IntRange(0, 3).Draw(t, "leaderCrash") == 0 || forceLC)
 		if leaderCrash {
 			time.Sleep(time.Duration(rapid.IntRange(5, 120).Draw(t, "shortWaitMs")) * time.Millisecond)
 		} else {
@@ -463,27 +503,82 @@ func c20RaftProperty(t *rapid.T) {
 			if victim.mustReach > victim.stub.chainMeta().Height {
 				crashWithQueued++
 			}
+			catchUp := !leaderCrash && size == 3 && snap < 1000 && rapid.IntRange(0, 2).Draw(t, "catchUpCrash") == 0
+			if catchUp {
+				// while it is down the others order more blocks than the leader keeps in its log, so that it needs a
+				// snapshot when it is back; it goes down again while the blocks it fetched are still at its executor
+				for _, r := range reps {
+					if r.id != victim.id {
+						via = r
+					}
+				}
+				k := (2*snap + 1) * batchSize
+				if k > 21 {
+					k = 21
+				}
+				submit(k)
+				ops = append(ops, fmt.Sprintf("round %d: %d transactions via replica %d while replica %d is down @%dms", rd, k, via.id, victim.id, time.Since(processStart).Milliseconds()))
+				via = entry
+				catchUpCrashes++
+			}
 			time.Sleep(time.Duration(rapid.IntRange(0, 150).Draw(t, "downMs")) * time.Millisecond)
 			victim.start(t, vp)
 			restarts++
+			if catchUp {
+				// ... as soon as blocks are waiting at its executor (or after the drawn time if none ever do)
+				limit := time.Now().Add(time.Duration(rapid.IntRange(100, 600).Draw(t, "secondCrashAfterMs")) * time.Millisecond)
+				queued := uint64(rapid.IntRange(0, 2).Draw(t, "queued"))
+				for time.Now().Before(limit) {
+					net.mu.Lock()
+					d := victim.delivered
+					net.mu.Unlock()
+					if d > victim.stub.chainMeta().Height+queued {
+						break
+					}
+					time.Sleep(3 * time.Millisecond)
+				}
+				ops = append(ops, fmt.Sprintf("crash replica %d again at executed height %d, restart with applied=%d @%dms", victim.id, victim.stub.chainMeta().Height, victim.stub.chainMeta().Height, time.Since(processStart).Milliseconds()))
+				victim.crash()
+				if victim.mustReach > victim.stub.chainMeta().Height {
+					crashWithQueued++
+				}
+				time.Sleep(time.Duration(rapid.IntRange(0, 100).Draw(t, "downMs2")) * time.Millisecond)
+				victim.start(t, vp)
+				restarts++
+			}
 		}
 	}
 	// heal and quiesce
 	net.mu.Lock()
 	net.healed = true
 	net.mu.Unlock()
-	deadline := time.Now().Add(8 * time.Second)
+	// quiet = all replicas at the same height, no block waiting at an executor (executors take up to 150 ms per
+	// block), and nothing new for a while (a restarted replica first has to get its log entries delivered again)
+	deadline := time.Now().Add(12 * time.Second)
+	quietSince := time.Time{}
+	last := ""
 	for time.Now().Before(deadline) {
 		hs := map[uint64]bool{}
+		cur := ""
+		drained := true
 		for _, r := range reps {
-			hs[r.stub.chainMeta().Height] = true
+			h := r.stub.chainMeta().Height
+			hs[h] = true
+			net.mu.Lock()
+			d := r.delivered
+			net.mu.Unlock()
+			if d > h {
+				drained = false
+			}
+			cur += fmt.Sprintf("%d/%d ", h, d)
 		}
-		if len(hs) == 1 {
+		if cur != last || len(hs) != 1 || !drained {
+			last, quietSince = cur, time.Now()
+		} else if time.Since(quietSince) > 500*time.Millisecond {
 			break
 		}
-		time.Sleep(50 * time.Millisecond)
+		time.Sleep(25 * time.Millisecond)
 	}
-	time.Sleep(100 * time.Millisecond)
 	var violations []string
 	if inconclusive == "" {
 		for _, r := range reps {
@@ -560,6 +655,12 @@ func c20RaftProperty(t *rapid.T) {
 	}
 	if deepPartitions > 0 {
 		cls = append(cls, "raft-deep-partition-with-busy-executor")
+	}
+	if catchUpCrashes > 0 {
+		cls = append(cls, "raft-crash-while-catching-up-from-a-snapshot")
+	}
+	if net.heldTx > 0 {
+		cls = append(cls, "raft-transaction-broadcast-after-leader-change")
 	}
 	_ = skippedAfterRestart
 	st.Case(nt, cls...)
